@@ -111,18 +111,31 @@ theorem protected_names_never_advertised (C : RpcClass) (ms : List Name) (h : co
   split at h
   · cases h
   · rename_i hany
-    injection h with h
-    subst h
-    intro n hn hmem
-    apply hany
-    rw [List.any_eq_true]
-    exact ⟨n, hmem, List.contains_iff_mem.mpr hn⟩
+    split at h
+    · injection h with h
+      subst h
+      intro n hn hmem
+      apply hany
+      rw [List.any_eq_true]
+      exact ⟨n, hmem, List.contains_iff_mem.mpr hn⟩
+    · cases h
 
-/-- a well-formed class can be constructed, and its descriptor lists exactly `advertised` -/
-theorem construct_ok_of_wf (C : RpcClass) (h : WellFormed C) : construct C = .ok (advertised C) := by
+/-- the descriptor, when it can be built, lists exactly `advertised` -/
+theorem construct_ok_eq (C : RpcClass) (ms : List Name) (h : construct C = .ok ms) : ms = advertised C := by
+  unfold construct at h
+  split at h
+  · cases h
+  · split at h
+    · injection h with h; exact h.symm
+    · cases h
+
+/-- a well-formed class whose `_rpc_constants` pass the asserts can be constructed, and its descriptor lists exactly
+`advertised` -/
+theorem construct_ok_of_wf (C : RpcClass) (h : WellFormed C) (hc : C.consts.all (constOk C) = true) :
+    construct C = .ok (advertised C) := by
   have hp := ((wellFormed_iff C).mp h).2
   unfold construct
-  rw [if_neg]
+  rw [if_neg, if_pos hc]
   intro hany
   rw [List.any_eq_true] at hany
   obtain ⟨n, hmem, hc⟩ := hany
@@ -145,10 +158,8 @@ theorem protected_names_rejected_of_constructible (C : RpcClass) (ms : List Name
     invokable C n = false ∧ effects C n = [] ∧ reply C n = .unknownRpc := by
   have hna : n ∉ advertised C := by
     have h1 := protected_names_never_advertised C ms hc n hn
-    unfold construct at hc
-    split at hc
-    · cases hc
-    · injection hc with hc; subst hc; exact h1
+    rw [construct_ok_eq C ms hc] at h1
+    exact h1
   have hni : ¬ invokable C n = true := fun e => hna ((invokable_iff_advertised_of_unshadowed C n hl).mp e)
   refine ⟨?_, rejected_runs_nothing C n hni⟩
   cases hi : invokable C n
@@ -162,6 +173,108 @@ theorem protected_marked_not_constructible (C : RpcClass) (n : Name) (hn : n ∈
   rw [if_pos]
   rw [List.any_eq_true]
   exact ⟨n, (mem_advertised_iff C n).mpr ha, List.contains_iff_mem.mpr hn⟩
+
+/-! ## the whole request handler: lock-token test, then dispatch -/
+
+theorem admitted_iff (lock req : Option Token) :
+    admitted lock req = true ↔ lock = none ∨ ∃ t, lock = some t ∧ req = some t := by
+  cases lock with
+  | none => simp [admitted]
+  | some t => simp [admitted]
+
+/-- **A refused request runs nothing.**  On a locked object a request without the locking token is answered with
+`OBJECT_IS_LOCKED` and no code of the object runs — whatever name it carries (provided the `_name` attribute the
+refusal logs is a plain attribute, which `full_<Class>` checks for every shipped class). -/
+theorem refused_request_runs_nothing (C : RpcClass) (hn : dynAttrRunsCode C n__name = false)
+    (lock req : Option Token) (n : Name) (h : admitted lock req = false) :
+    handle C lock req n = (.objectLocked, []) := by
+  simp [handle, h, refusedEffects, hn]
+
+example : admitted (some 3) none = false ∧ admitted (some 3) (some 4) = false ∧ admitted (some 3) (some 3) = true
+    ∧ admitted none (some 9) = true := by decide
+
+/-- **C05 for the whole of `_handle_method_rpc_request`.**  For a well-formed class, every lock state, every request
+token and every name: the method is called iff the request is admitted by the lock test *and* the name is advertised;
+otherwise nothing runs, and the reply is `OBJECT_IS_LOCKED` (refused) resp. the unknown-RPC error (admitted). -/
+theorem handle_sound (C : RpcClass) (h : WellFormed C) (hn : dynAttrRunsCode C n__name = false)
+    (lock req : Option Token) (n : Name) :
+    ((handle C lock req n).2 = [.called n] ↔ (admitted lock req = true ∧ n ∈ advertised C))
+    ∧ ((handle C lock req n).2 = [] ∨ (handle C lock req n).2 = [.called n])
+    ∧ (admitted lock req = false → (handle C lock req n).1 = .objectLocked)
+    ∧ (admitted lock req = true → n ∉ advertised C → (handle C lock req n).1 = .unknownRpc) := by
+  have hd := (dispatch_sound C h).1 n
+  cases ha : admitted lock req with
+  | false =>
+    rw [refused_request_runs_nothing C hn lock req n ha]
+    simp
+  | true =>
+    have hh : handle C lock req n = (reply C n, effects C n) := by simp [handle, ha]
+    rw [hh]
+    cases hi : invokable C n with
+    | false =>
+      have hna : n ∉ advertised C := fun e => by rw [hd.mpr e] at hi; cases hi
+      have hr := rejected_runs_nothing C n (by rw [hi]; exact Bool.false_ne_true)
+      simp [hr.1, hr.2, hna]
+    | true =>
+      have hadv := hd.mp hi
+      have he : effects C n = [.called n] := by
+        unfold invokable at hi
+        unfold effects
+        cases hg : instLookup C n with
+        | absent => rw [hg] at hi; cases hi
+        | value m => cases m <;> simp_all
+      simp [he, hadv]
+
+/-! ## the proxy built from the descriptor -/
+
+/-- **The proxy forwards exactly the advertised methods**: if the object can be constructed and no signal, `address`
+or `rpc_nonblocking` is an advertised method (`proxyCleanB`, checked per shipped class), `QMI_RpcProxy.__init__`
+succeeds and the names that end up as forwarding stubs are the descriptor's method list. -/
+theorem proxy_forwards_advertised (C : RpcClass) (ms : List Name) (hc : construct C = .ok ms)
+    (hp : proxyCleanB C = true) : proxyBuild ms C.consts C.sigs = .ok ms := by
+  have hms := construct_ok_eq C ms hc
+  subst hms
+  unfold proxyCleanB at hp
+  simp only [Bool.and_eq_true, List.all_eq_true, Bool.not_eq_true', List.mem_cons] at hp
+  obtain ⟨hadv, hcs⟩ := hp
+  have hcs' : n_address ∉ C.consts ++ C.sigs := fun e => by
+    rw [List.contains_iff_mem.mpr e] at hcs; cases hcs
+  unfold proxyBuild
+  rw [if_neg]
+  · congr 1
+    rw [List.filter_eq_self]
+    intro a ha
+    have haa : isAdvertised C a = true := (mem_advertised_iff C a).mp ha
+    simp only [Bool.and_eq_true, Bool.not_eq_true', bne_iff_ne, ne_eq]
+    constructor
+    · cases hcc : C.sigs.contains a with
+      | false => rfl
+      | true =>
+        have := hadv a (Or.inr (Or.inr (List.contains_iff_mem.mp hcc)))
+        rw [haa] at this; cases this
+    · intro e
+      have := hadv a (Or.inr (Or.inl e))
+      rw [haa] at this; cases this
+  · intro hcon
+    have hmem := List.contains_iff_mem.mp hcon
+    simp only [List.mem_append] at hmem hcs'
+    rcases hmem with (h1 | h1) | h1
+    · exact hcs' (Or.inl h1)
+    · have := hadv n_address (Or.inl rfl)
+      rw [(mem_advertised_iff C n_address).mp h1] at this; cases this
+    · exact hcs' (Or.inr h1)
+
+/-- whatever the signals and constants are: a lock-control name is never a forwarding stub of a proxy (so the proxy's own
+`lock`/`unlock`/`force_unlock`/`is_locked` are never taken over) -/
+theorem proxy_never_forwards_protected (C : RpcClass) (ms fs consts sigs : List Name) (hc : construct C = .ok ms)
+    (hb : proxyBuild ms consts sigs = .ok fs) : ∀ n ∈ protectedNames, n ∉ fs := by
+  intro n hn hmem
+  unfold proxyBuild at hb
+  split at hb
+  · cases hb
+  · injection hb with hb
+    subst hb
+    exact protected_names_never_advertised C ms hc n hn (List.mem_filter.mp hmem).1
 
 /-! ## a syntactic sufficient condition (the shape all clean classes have; cheap to evaluate) -/
 
